@@ -18,14 +18,19 @@
   * `c03_layout_shared`      — size, alignment and offsets are not recomputed by the compiler: both readers use the
         one `structLayout` of the class.
 
-  Hypothesis `AlignedStart`: an aligned structure starts at a multiple of its alignment (property C09 states the same
-  restriction; parsing from a bytes object starts at 0).
-  Hypothesis `SubSizes`: a member that is read through its own `_read` (nested structure, structure array, ...) and has a
-  layout offset and a static size consumes exactly that size where the layout puts it.  The compiler assumes this when
-  it emits no seek after such a member, and so does the validator (`spos := k + size` after `.sub`); it is not a theorem
-  about `read` (an aligned structure nested in a packed one at a misaligned offset pads on the absolute position).  Nested structures are read through `read` (their own `_read`);
-  for a nested structure with a compiled reader the statement applies to it separately, so the equivalence of whole
-  type trees follows by induction over the nesting depth.
+  No hypothesis on the start position: the structure may start anywhere in the stream (an aligned structure at a
+  position that is not a multiple of its alignment, too).  After an alignment statement (`.align a`, `a ≠ 1`: it pads on
+  the absolute position) the validator no longer knows the static offset of the stream; it accepts what follows only if
+  the plan re-establishes the position by a seek in front of a member with a layout offset (the compiler does: it forgets
+  its tracked offset after emitting an alignment statement).
+  No hypothesis on members that are read through their own `_read` either: after a `.sub` of a member that contains a
+  structure (nested structure, union, arrays of them) the validator does not know the static offset of the stream (an
+  aligned structure nested at a misaligned position pads on the absolute position, so it need not consume its declared
+  size); the plan has to seek in front of the next member with a layout offset (the compiler does: it forgets its tracked
+  offset after every nested structure).  For a member without a structure (multi-dimensional arrays of scalars, ...) the
+  validator uses `k + size`; that such a member consumes exactly its declared size is proved (`static_pf`).
+  Nested structures are read through `read` (their own `_read`); for a nested structure with a compiled reader the
+  statement applies to it separately, so the equivalence of whole type trees follows by induction over the nesting depth.
 -/
 import Proofs.Lemmas.C03
 
@@ -33,32 +38,32 @@ namespace Cstruct.Compiler.C03
 open Cstruct Cstruct.Compiler
 
 theorem c03_compiled_refines (cfg : Cfg) (al : Bool) (fs : Fields) (plan : Plan) (data : Bytes) (pos : Nat)
-    (hok : planOK cfg al fs plan = true) (hstart : AlignedStart cfg al fs pos) (hsub : SubSizes cfg al fs data pos)
+    (hok : planOK cfg al fs plan = true)
     (v : Val) (szs : List (String × Nat)) (p : Nat)
     (hc : readCompiled cfg al fs plan data pos = .ok (v, szs, p)) :
     ∃ szs', readStructWithSizes cfg al fs data pos = .ok (v, szs', p) ∧
       szs.filter (fun e => e.2 ≠ 0) = szs'.filter (fun e => e.2 ≠ 0) :=
-  compiled_refines cfg al fs plan data pos hok hstart hsub v szs p hc
+  compiled_refines cfg al fs plan data pos hok v szs p hc
 
 theorem c03_plan_sound (cfg : Cfg) (al : Bool) (fs : Fields) (plan : Plan) (data : Bytes) (pos : Nat)
-    (hok : planOK cfg al fs plan = true) (hstart : AlignedStart cfg al fs pos) (hsub : SubSizes cfg al fs data pos)
+    (hok : planOK cfg al fs plan = true)
     (v₁ v₂ : Val) (s₁ s₂ : List (String × Nat)) (p₁ p₂ : Nat)
     (hc : readCompiled cfg al fs plan data pos = .ok (v₁, s₁, p₁))
     (hi : readStructWithSizes cfg al fs data pos = .ok (v₂, s₂, p₂)) :
     v₁ = v₂ ∧ p₁ = p₂ ∧ s₁.filter (fun e => e.2 ≠ 0) = s₂.filter (fun e => e.2 ≠ 0) := by
-  obtain ⟨s', h, hs⟩ := compiled_refines cfg al fs plan data pos hok hstart hsub v₁ s₁ p₁ hc
+  obtain ⟨s', h, hs⟩ := compiled_refines cfg al fs plan data pos hok v₁ s₁ p₁ hc
   rw [h] at hi
   cases hi
   exact ⟨rfl, rfl, hs⟩
 
 theorem c03_interp_ok_compiled (cfg : Cfg) (al : Bool) (fs : Fields) (plan : Plan) (data : Bytes) (pos : Nat)
-    (hok : planOK cfg al fs plan = true) (hstart : AlignedStart cfg al fs pos) (hsub : SubSizes cfg al fs data pos)
+    (hok : planOK cfg al fs plan = true)
     (v : Val) (szs : List (String × Nat)) (p : Nat)
     (hi : readStructWithSizes cfg al fs data pos = .ok (v, szs, p)) :
     (∃ szs', readCompiled cfg al fs plan data pos = .ok (v, szs', p) ∧
         szs'.filter (fun e => e.2 ≠ 0) = szs.filter (fun e => e.2 ≠ 0)) ∨
       readCompiled cfg al fs plan data pos = .error .eof :=
-  interp_ok_compiled cfg al fs plan data pos hok hstart hsub v szs p hi
+  interp_ok_compiled cfg al fs plan data pos hok v szs p hi
 
 theorem c03_layout_shared (cfg : Cfg) (al : Bool) (fs : Fields) (plan : Plan) (data : Bytes) (pos : Nat)
     (e : Err) (h : structLayout cfg al fs = .error e) :
@@ -66,10 +71,9 @@ theorem c03_layout_shared (cfg : Cfg) (al : Bool) (fs : Fields) (plan : Plan) (d
   simp [readCompiled, readStructWithSizes, h]
 
 -- non-vacuity: a concrete aligned structure with a bit-field run, a gap, a nested structure and an array, its real
--- plan, the validator accepts it, the hypotheses hold and both readers return
-example : planOK samplecfg true sampleFields samplePlan = true ∧ AlignedStart samplecfg true sampleFields 0 ∧
-    SubSizes samplecfg true sampleFields sampleData 0 ∧
+-- plan (with the seek after the nested structure), the validator accepts it and the compiled reader returns
+example : planOK samplecfg true sampleFields samplePlan = true ∧
     (∃ r, readCompiled samplecfg true sampleFields samplePlan sampleData 0 = .ok r) := by
-  refine ⟨sample_planOK, sample_aligned, sample_subsizes, ⟨_, sample_runs⟩⟩
+  refine ⟨sample_planOK, ⟨_, sample_runs⟩⟩
 
 end Cstruct.Compiler.C03
